@@ -321,8 +321,13 @@ class Parser:
         tok = self.peek()
         if tok == "(" and self.is_type_start(1):
             self.eat("(")
+            start = self.i
             self.skip_type_in_parens()
-            return self.unary()          # a cast: value unchanged in the IR
+            ty = self.t[start:self.i - 1]
+            e = self.unary()          # a cast: value unchanged in the IR
+            if ty == ["unsigned", "long"] and e[0] == "id" and self.tr.lptr.get(e[1], 0) > 0 and e[1] in self.tr.locals:
+                return ("ulcast", e)  # integer view of a pointer: `&` / `|` on it act on the pointer's tag bits
+            return e
         if tok in ("!", "~", "-", "&", "*"):
             self.eat()
             return ("un", tok, self.unary())
@@ -909,6 +914,8 @@ class Translator:
                 return [], ".var %s" % lstr(e[1][1])
             p, a = self.addr(e)
             return p, ".pload (%s)" % a
+        if k == "ulcast":
+            return self.rv(e[1])
         if k == "str":
             return [], ".lit 0"          # a string literal (only ever an argument of diagnostics): no value in the IR
         if k == "index":
@@ -959,6 +966,8 @@ class Translator:
                 raise Unsupported("operator %s" % e[1])
             p1, a = self.rv(e[2])
             p2, b = self.rv(e[3])
+            if e[1] in ("&", "|") and e[2][0] == "ulcast" and self.prefix == "lfht.":
+                return p1 + p2, ".bin .%s (%s) (%s)" % ("tagand" if e[1] == "&" else "tagor", a, b)
             if e[1] in ("&&", "||") and p2:
                 # right operand has effects: keep the short circuit
                 t = self.tmp()
@@ -1492,6 +1501,14 @@ UNITS = [
     ("qsbr.", (), ("src/urcu-qsbr.c",), ["src/urcu-qsbr.c", "src/urcu-wait.h"],
      [("wait_gp", "src/urcu-qsbr.c"), ("wait_for_readers", "src/urcu-qsbr.c"), ("urcu_qsbr_synchronize_rcu", "src/urcu-qsbr.c"),
       ("urcu_qsbr_register_thread", "src/urcu-qsbr.c"), ("urcu_qsbr_unregister_thread", "src/urcu-qsbr.c")]),
+    # the hash table's lock-free core; counting / resize triggers are opaque here (C09's subject)
+    ("lfht.", (), ("src/rculfhash.c",), ["src/rculfhash.c"],
+     [("lookup_bucket", "src/rculfhash.c"), ("_cds_lfht_gc_bucket", "src/rculfhash.c"), ("_cds_lfht_add", "src/rculfhash.c"),
+      ("_cds_lfht_del", "src/rculfhash.c"), ("_cds_lfht_replace", "src/rculfhash.c"), ("cds_lfht_lookup", "src/rculfhash.c"),
+      ("cds_lfht_next_duplicate", "src/rculfhash.c"), ("cds_lfht_next", "src/rculfhash.c"), ("cds_lfht_first", "src/rculfhash.c"),
+      ("cds_lfht_add", "src/rculfhash.c"), ("cds_lfht_add_unique", "src/rculfhash.c"), ("cds_lfht_add_replace", "src/rculfhash.c"),
+      ("cds_lfht_replace", "src/rculfhash.c"), ("cds_lfht_del", "src/rculfhash.c"), ("cds_lfht_is_node_deleted", "src/rculfhash.c")],
+     ("check_resize", "ht_count_add", "ht_count_del", "cds_lfht_iter_debug_set_ht", "cds_lfht_iter_debug_assert")),
     ("poll.", (), ("src/urcu-poll-impl.h",), ["src/urcu-poll-impl.h"],
      [("urcu_poll_worker_cb", "src/urcu-poll-impl.h"), ("start_poll_synchronize_rcu", "src/urcu-poll-impl.h"),
       ("poll_state_synchronize_rcu", "src/urcu-poll-impl.h")], ("call_rcu",)),
@@ -1534,7 +1551,7 @@ def main():
         # both define are renamed), and one each for the units whose own file is another flavor's .c file.
         def ctx_of(tr):
             own = sorted(tr.own_files)
-            if own and own[0] in ("src/urcu-bp.c", "src/urcu-qsbr.c"):
+            if own and own[0] in ("src/urcu-bp.c", "src/urcu-qsbr.c", "src/rculfhash.c"):
                 return own[0]
             return "main"
         ctxs = {}
